@@ -125,7 +125,7 @@ func (b *builder) build() {
 		b.buildForm()
 	}
 	b.finishPages()
-	if b.spec.Info || b.spec.Secrets {
+	if b.spec.Info || b.spec.Secrets || b.spec.InfoKeywords != nil {
 		b.buildInfo()
 	}
 	if b.spec.XMP || b.spec.Secrets {
@@ -133,6 +133,12 @@ func (b *builder) build() {
 	}
 	if b.spec.ViewerPrefs {
 		b.buildViewerPrefs()
+	}
+	if b.spec.OCProperties > 0 {
+		b.buildOCProperties()
+	}
+	if b.spec.PageLabels > 0 {
+		b.buildPageLabels()
 	}
 	if b.spec.Secrets {
 		b.buildNestedSecrets()
